@@ -527,3 +527,37 @@ Proof.
     apply forallb_ext'. intros c. apply is_space_ws.
   - rewrite istitle_loop_spec. cbn [orb]. apply andb_comm.
 Qed.
+
+(* ---- all string methods proved so far, as one statement *)
+Definition proved_method (m : meth) : bool :=
+  match m with
+  | MCount | MSplit | MRsplit | MSplitlines | MReplace => false
+  | _ => true
+  end.
+Definition strip_method (m : meth) : bool :=
+  match m with MStrip | MLstrip | MRstrip => true | _ => false end.
+
+Lemma string_methods_correct_partial_lemma : forall m recv args,
+  proved_method m = true ->
+  (strip_method m = true -> args <> [VStr []]) ->
+  blen recv <= 2^61 ->
+  string_method m recv args = of_spec (spec_string_method (sspec m) recv args).
+Proof.
+  intros m recv args Hp Hs Hn.
+  destruct m; try discriminate Hp;
+    try (apply case_methods_correct_lemma; exact I); cbn [string_method sspec].
+  - apply (find_correct_lemma recv args true false Hn).
+  - apply (find_correct_lemma recv args true true Hn).
+  - apply (find_correct_lemma recv args false false Hn).
+  - apply (find_correct_lemma recv args false true Hn).
+  - apply (startswith_correct_lemma recv args false Hn).
+  - apply (startswith_correct_lemma recv args true Hn).
+  - apply (partition_correct_lemma recv args false).
+  - apply (partition_correct_lemma recv args true).
+  - apply (strip_correct_partial_lemma recv args 0); [lia|apply Hs; reflexivity].
+  - apply (strip_correct_partial_lemma recv args 1); [lia|apply Hs; reflexivity].
+  - apply (strip_correct_partial_lemma recv args 2); [lia|apply Hs; reflexivity].
+  - apply join_correct_lemma.
+  - apply (removefix_correct_lemma recv args false).
+  - apply (removefix_correct_lemma recv args true).
+Qed.
